@@ -161,9 +161,11 @@ func (e *composerEnv) keyJSON(k CEnt) map[string]interface{} {
 
 func (e *composerEnv) svcJSON(s CEnt) map[string]interface{} {
 	m := map[string]interface{}{
-		"id":              entID("s", s.ID),
-		"type":            fmt.Sprintf("SvcType%d", s.Ver),
-		"serviceEndpoint": fmt.Sprintf("https://svc%d.example/v%d", s.ID, s.Ver),
+		"id":   entID("s", s.ID),
+		"type": fmt.Sprintf("SvcType%d", s.Ver),
+		// (valid URIs come with and without an authority: https, did, urn)
+		"serviceEndpoint": []string{fmt.Sprintf("https://svc%d.example/v%d", s.ID, s.Ver), fmt.Sprintf("did:example:svc%d-v%d", s.ID, s.Ver),
+			fmt.Sprintf("urn:uuid:00000000-0000-0000-0000-0000000000%d%d", s.ID, s.Ver)}[s.Ver%3],
 	}
 
 	if s.Ver%2 == 0 {
@@ -252,7 +254,8 @@ var reURI = regexp.MustCompile(`^https://aka([0-9]+)\.example/$`)
 
 // Names of further document members: ordinary names, but the second extends the first (sibling
 // names sharing a prefix) and carries a space, a non-ASCII letter and a percent sign.
-var otherNames = []string{"", "o1", "o1 é%", "o3"}
+// (the first begins with the letters of a member that IS special - "id" - without being it)
+var otherNames = []string{"", "identifier", "identifier é%", "o3"}
 
 func otherName(i int) string {
 	if i < len(otherNames) {
@@ -493,6 +496,16 @@ func (e *composerEnv) step(cs *cdocState, ps []CPatch) (res compStep) {
 	patches := e.realPatches(ps)
 	pd := digestJSON(patches)
 
+	// a copy through bytes (what the patches were decoded from): equal to the patches value for value and type for
+	// type before the call - and afterwards
+	var snap []patch.Patch
+
+	if raw, merr := json.Marshal(patches); merr == nil {
+		_ = json.Unmarshal(raw, &snap)
+	}
+
+	typed := reflect.DeepEqual(patches, snap)
+
 	defer func() {
 		if r := recover(); r != nil {
 			res = compStep{next: cs, panicked: fmt.Sprint(r)}
@@ -503,6 +516,8 @@ func (e *composerEnv) step(cs *cdocState, ps []CPatch) (res compStep) {
 
 	if digestJSON(patches) != pd {
 		res.mutated = "patch values"
+	} else if typed && !reflect.DeepEqual(patches, snap) {
+		res.mutated = "patch values (same JSON, other Go types: something was written into the patch)"
 	}
 
 	if digestJSON(cs.doc) != cs.digest {
@@ -682,6 +697,10 @@ func composerReplay(args []string) {
 					col.report(mismatch{Kind: "input-mutated", Key: patchListKey("input-mutated", ed.Patches), Case: cs, Detail: res.mutated, Concrete: conc(), Replay: rp})
 				case res.partial:
 					col.report(mismatch{Kind: "error-with-state", Key: patchListKey("error-with-state", ed.Patches), Case: cs, Concrete: conc(), Replay: rp})
+				case res.ok && !ed.Ok && col.only != nil && col.only["failure-swallowed"]:
+					// (C12: a list one of whose patches fails yields an error - reported under this name when asked for)
+					col.report(mismatch{Kind: "failure-swallowed", Key: patchListKey("failure-swallowed", ed.Patches, ed.Why), Case: cs,
+						Detail: "a patch of the list fails (" + ed.Why + ") and the call returns a document and no error", Concrete: conc(), Replay: rp})
 				case res.ok != ed.Ok:
 					col.report(mismatch{Kind: "verdict", Key: patchListKey("verdict", ed.Patches, ed.Why), Case: cs,
 						Expected: map[string]interface{}{"applies": ed.Ok}, Actual: map[string]interface{}{"applies": res.ok}, Concrete: conc(), Replay: rp})
